@@ -305,7 +305,9 @@ def run_check(chk, tier, seed, replay=None, max_report=5):
         iobs = _safe_impl(chk, case)
         print("case:", json.dumps(case)[:2000])
         print("implementation:", json.dumps(iobs, default=str)[:2000])
-        if chk.entry:
+        if chk.entry and not chk.comparable(case):
+            print("model: not run (the case is outside the model's input language; judged by the oracle only)")
+        elif chk.entry:
             res = lib.run_model(chk.entry_of(case), [chk.model_arg(case)])[0]
             mobs = chk.model_obs(case, res)
             print("model:", json.dumps(mobs, default=str)[:2000])
